@@ -771,6 +771,8 @@ class Interp:
                 info = {"clause": ast.unparse(e)}
                 if k in fs.known:
                     info["known"] = fs.known[k]
+                if k in fs.for_prop:
+                    info["for_property"] = fs.for_prop[k]
                 self.oblige(f"post#{k}", self.ev_spec(e), info)
             self.check_frame(fs)
             # reachability canary: this exit must not be provable dead
@@ -1187,11 +1189,61 @@ class Interp:
 
     st_AsyncFor = st_For
 
+    def _alias_loop(self, s):
+        """`for x in D.values(): ... x.mutate() ...` (or `for k, x in D.items()`) where the values of D are containers: x ALIASES D[k],
+        so the in-place mutation is a mutation of D.  Containers are values in the encoding, hence the loop is read as
+        `for k in D: x = D[k]; <body>; D[k] = x` (same iteration order; only when the body neither rebinds x nor touches D otherwise)."""
+        it_ = s.iter
+        if not (isinstance(it_, ast.Call) and isinstance(it_.func, ast.Attribute) and it_.func.attr in ("values", "items") and not it_.args and not it_.keywords):
+            return None
+        if it_.func.attr == "values" and isinstance(s.target, ast.Name):
+            xname, kname = s.target.id, None
+        elif (it_.func.attr == "items" and isinstance(s.target, ast.Tuple) and len(s.target.elts) == 2
+              and all(isinstance(e, ast.Name) for e in s.target.elts)):
+            kname, xname = s.target.elts[0].id, s.target.elts[1].id
+        else:
+            return None
+        if xname not in mutated_roots(s.body) or xname in assigned_names(s.body) or (kname and kname in assigned_names(s.body)):
+            return None
+        dexpr = it_.func.value
+        if _dotted(dexpr) is None:
+            return None
+        try:
+            d = self.ev(dexpr)
+        except OutOfSubset:
+            return None
+        if not (isinstance(d, V) and isinstance(d.sort, S.TDict) and isinstance(d.sort.val, (S.TList, S.TSet, S.TDict))):
+            return None
+        dsrc = ast.unparse(dexpr)
+        if any(isinstance(n, (ast.Attribute, ast.Name)) and isinstance(getattr(n, "ctx", None), (ast.Store, ast.Del)) and ast.unparse(n) == dsrc
+               for st in s.body for n in ast.walk(st)):
+            return None
+        kname = kname or f"_alias_key_{xname}"
+        src = f"for {kname} in {dsrc}:\n    {xname} = {dsrc}[{kname}]\n    pass\n    {dsrc}[{kname}] = {xname}\n"
+        new = ast.parse(src).body[0]
+        new.body = [new.body[0]] + list(s.body) + [new.body[2]]
+        ast.copy_location(new, s)
+        for n in (new.body[0], new.body[-1]):
+            for x in ast.walk(n):
+                ast.copy_location(x, s)
+        ast.fix_missing_locations(new)
+        self.eng.idioms.setdefault(self.fname, set()).add(
+            f"line {getattr(s, 'lineno', '?')}: for {xname} in {dsrc}.{it_.func.attr}() with in-place mutation of {xname} -> keyed loop with write-back (aliasing)")
+        return new
+
     def loop(self, s, kind):
         if s.orelse:
             raise OutOfSubset("loop else")
         fs = self.cur_fs
         k = self.loopnum.get(id(s))
+        if kind == "for" and not getattr(s, "_alias_done", False):
+            if not hasattr(s, "_alias_new"):
+                s._alias_new = self._alias_loop(s)  # kept on the original node: one desugared loop per source loop, never collected
+            new = s._alias_new
+            if new is not None:
+                new._alias_done = True
+                self.loopnum[id(new)] = k
+                s = new
         invs = fs.invariants.get(k, []) if fs and k is not None else []
         if not self.frames and self.fs is not None and self.fs.kind != "lemma":
             # which loops of the unit are cut with declared invariants (the verdict policy distrusts unreplayed refutations of a unit whose
